@@ -506,7 +506,8 @@ def _zygote_start():
             if child == 0:
                 try:
                     try:
-                        ob = run_here(json.loads(line))
+                        cj = json.loads(line)
+                        ob = run_here(cj) if cj.get("entry") == "hist" else dict(_base().impl_call(cj), isolated=True)
                     except Exception as e:
                         import traceback
                         ob = {"err": "UNMAPPED:" + err_kind(e), "trace": traceback.format_exc()[-800:]}
@@ -522,6 +523,22 @@ def _zygote_start():
                 os.write(res_w, (json.dumps({"err": "UNMAPPED:child-died", "status": status}) + "\n").encode())
     finally:
         os._exit(0)
+
+
+def isolated(c):
+    """a non-history case as the only case of a fresh process (None when no child can be forked)"""
+    _zygote_start()
+    z = _ISO["zygote"]
+    if z is None:
+        return None
+    _, out, inp = z
+    out.write(json.dumps(c) + "\n")
+    out.flush()
+    line = inp.readline()
+    if not line:
+        _ISO["zygote"], _ISO["failed"] = None, True
+        return None
+    return json.loads(line)
 
 
 def impl(c):
@@ -660,7 +677,11 @@ def _problems(c, io, drv):
             info = callinfo.get(s)
             sr = w["streams"].get(s, {})
             ys_all.setdefault(s, []).extend(dec(v) for v in so["ys"])
-            isexact = bool(sr.get("coef_exact")) and w["all_frac"]
+            # exact regime: integer coefficients are formatted as exact literals and all data are Fractions; the
+            # all-zero filter formats the ZERO VALUE into its source (`yield 1/3` is a float)
+            zero_lit = info is not None and info.get("ir", {}).get("kind") == "const" and \
+                Fraction(val(sr.get("zero", "0/1"))).denominator != 1
+            isexact = bool(sr.get("coef_exact")) and w["all_frac"] and not zero_lit
             for kind, ref in (("model", mo), ("spec", so)):
                 d = None
                 try:
@@ -814,8 +835,6 @@ def tally(eng, c, io):
             if f.get("x_is_mem"):
                 shared.add("one list as input and memory")
             if f.get("mem_len") is not None:
-                lm = None
-                j = w["at"][i]
                 eng.count("hist_memory_len", f["mem_len"] if f["mem_len"] < 4 else "4+")
         if st["op"] == "take" and f.get("others_live"):
             shared.add("several live streams")
@@ -1095,7 +1114,7 @@ def _h_twins(rng):
     if all(v == 0 for v in b):
         b[-1] = 3
     types = rng.choice([["float", "int"], ["int", "float"], ["float", "frac"], ["frac", "float"], ["float", "int", "frac"],
-                        ["float", "int", "float"]])
+                        ["float", "int", "float"], ["int", "int"], ["int", "frac"]])     # also equal-but-not-identical filters
     x = B.new("x", _samples(rng, rng.randint(3, 6)))
     fs = []
     for t in types:
@@ -1110,7 +1129,8 @@ def _h_twins(rng):
     early = rng.random() < 0.5
     for f in fs:
         m = _mem_for(B, rng, f) if rng.random() < 0.6 else None
-        s = B.call(f, x, mem=m, mem_as=rng.choice(["list", "tuple", "callable_copy"]), x_as=rng.choice(["list", "tuple", "iter"]), zero="0/1")
+        s = B.call(f, x, mem=m, mem_as=rng.choice(["list", "tuple", "callable_copy"]), x_as=rng.choice(["list", "tuple", "iter"]),
+                   zero=rng.choice(["0/1", "0/1", "7/1", "-2/1"]))
         if early:
             B.take(s, BIG)
     if not early:
@@ -1306,8 +1326,8 @@ def shrink(c):
             vs = st[key]
             if vs:
                 yield rep(**{key: vs[:-1]})
-                if len(vs) > 1:
-                    yield rep(**{key: vs[1:]}) if key == "vals" and st["op"] != "newc" else rep(**{key: vs[:-1]})
+                if len(vs) > 1 and not (key == "vals" and st["op"] == "newc"):
+                    yield rep(**{key: vs[1:]})
             for j, v in enumerate(vs):
                 if key == "vals":
                     for s_ in _simpler_num(v)[:2]:
@@ -1318,8 +1338,7 @@ def shrink(c):
         elif st["op"] in ("mut", "mutc") and "v" in st:
             for s_ in _simpler_num(st["v"])[:2]:
                 yield rep(v=s_)
-        if st["op"] in ("mut",) and st["how"] not in ("set", "assign"):
-            cell_len = 1
+        if st["op"] == "mut" and st["how"] not in ("set", "assign"):
             yield rep(how="assign", vals=["1/1"])
 
 
